@@ -45,6 +45,24 @@ func c15Tap(r *rng, id string) {
 			n.kr.UseKey(k2)
 			primary = k2
 		}
+		// the rest of a rotation, as an operator's tooling drives it: requests repeated, retried after
+		// they took effect, or naming keys that are not (or no longer) installed
+		k3 := mkKey(r, 16)
+		ks := [][]byte{k1, k2, k3}
+		for j, steps := 0, r.intn(7); j < steps; j++ {
+			k := ks[r.intn(3)]
+			switch r.intn(4) {
+			case 0:
+				n.kr.AddKey(k)
+			case 1:
+				n.kr.UseKey(k)
+			default:
+				n.kr.RemoveKey(k)
+			}
+		}
+		if p := n.kr.GetPrimaryKey(); p != nil {
+			primary = p
+		}
 	}
 	secret := []byte("SECRET-PAYLOAD-0123456789")
 	n.del.meta = []byte("SECRET-META")
